@@ -64,7 +64,7 @@ Proof.
     now replace (1 + (kk - 1)) with kk by lia.
 Qed.
 
-Theorem band_back_trace (au : matrix) (mm n : nat) (y x : list T) (lf : nat) :
+Theorem band_back_trace_lemma (au : matrix) (mm n : nat) (y x : list T) (lf : nat) :
   cols au = mm -> 1 <= mm -> length y = n ->
   for_rev 0 n (back_step mm au) (y, 1) = Ok (x, lf) ->
   length x = n /\
@@ -146,7 +146,7 @@ Proof.
   destruct ((k <? i) && (i <? fwin n m1 k)); [rewrite app_length; cbn; lia|lia].
 Qed.
 
-Theorem band_fwd_trace (al : matrix) (index : list nat) (n m1 : nat) (b y : list T) (lf : nat) :
+Theorem band_fwd_trace_lemma (al : matrix) (index : list nat) (n m1 : nat) (b y : list T) (lf : nat) :
   cols al = m1 -> m1 <= n -> length b = n ->
   (forall k, k < n -> k + 1 <= nth k index 0) ->
   for_ 0 n (fwd_step n al index) (b, m1) = Ok (y, lf) ->
